@@ -526,6 +526,52 @@ func gen(r *rand.Rand, tier string, emit func(core.Case)) {
 		b.look()
 		emit(core.Case{Kind: "reader-vs-writer", Ops: b.ops})
 	}
+	// 7e. the size-limit ticker fires while records are being written (checkHeadSizeLimit may run
+	// between any two Write calls on the group): markers and messages, then readers, searches of
+	// every marker, a restart
+	for c := 0; c < 60*scale; c++ {
+		b := newBuilder(r)
+		b.hl = []int{20, 40, 70, 120}[r.Intn(4)]
+		b.tl = []int{0, 0, 400}[r.Intn(3)]
+		b.open()
+		n := 4 + r.Intn(10)
+		for i := 0; i < n; i++ {
+			var d []byte
+			sync := r.Intn(2)
+			if r.Intn(3) == 0 {
+				d = b.marker()
+				sync = 1
+			} else {
+				d = b.msg(0)
+			}
+			b.ops = append(b.ops, fmt.Sprintf("writerot data=%s sync=%d", hx(d), sync))
+			if sync == 1 {
+				b.sizes = b.sizes[:0]
+			} else {
+				b.sizes = append(b.sizes, 8+len(d))
+			}
+			if r.Intn(5) == 0 {
+				b.work(1 + r.Intn(2))
+			}
+			if r.Intn(6) == 0 {
+				b.look()
+			}
+		}
+		b.ops = append(b.ops, "sync")
+		b.look()
+		for _, h := range b.all {
+			b.ops = append(b.ops, fmt.Sprintf("search h=%d ign=%d", h, r.Intn(2)))
+		}
+		if r.Intn(2) == 0 {
+			b.ops = append(b.ops, "stop")
+		} else {
+			b.crash()
+		}
+		b.open()
+		b.recover()
+		b.look()
+		emit(core.Case{Kind: "ticker-during-write", Ops: b.ops})
+	}
 	// 8. a record above the size limit is refused and leaves no trace
 	{
 		b := newBuilder(r)
@@ -541,7 +587,7 @@ func gen(r *rand.Rand, tier string, emit func(core.Case)) {
 	// 9. malformed and out-of-state op lines (both sides must refuse them the same way)
 	bad := []string{"open", "open hl=1 tl=1", "open hl=x tl=1 e0=-", "write", "write data=zz", "write data=abc", "sync now",
 		"rotate 1", "crash", "crash cut=-1", "flip f=h off=1", "flip f=h off=1 x=0", "flip f=h off=1 x=256", "flip f=q off=1 x=1",
-		"raw", "mkfile", "mkfile i=1", "mkfile i=x recs=-", "mkfile i=1 recs=zz", "search h=1", "search ign=1", "search h=a ign=0", "recover h=1", "recover e0=-", "readall x", "ls x", "frobnicate", "stop 1", "ropen", "ropen name=a", "ropen name=a idx=99", "rnext name=zz n=1", "rnext name=a", "rclose name=zz", "rsearch name=a h=1", "race", "race recs=zz"}
+		"raw", "mkfile", "mkfile i=1", "mkfile i=x recs=-", "mkfile i=1 recs=zz", "search h=1", "search ign=1", "search h=a ign=0", "recover h=1", "recover e0=-", "readall x", "ls x", "frobnicate", "stop 1", "ropen", "ropen name=a", "ropen name=a idx=99", "rnext name=zz n=1", "rnext name=a", "rclose name=zz", "rsearch name=a h=1", "race", "race recs=zz", "writerot", "writerot data=00", "writerot data=zz sync=1"}
 	for c := 0; c < 30*scale; c++ {
 		b := newBuilder(r)
 		var ops []string
